@@ -3,10 +3,20 @@
    decoder                : Model.Codec.decode (hand-written transcription of decode.go, buffer.go and the eight
                             hand-written Decode methods; tied by the codecharness correspondence)
    fuel                   = nesting depth of Variant / DataValue / DiagnosticInfo / ExtensionObject bodies
-                            = depth of the Go recursion; OutOfFuel models Go's fatal stack overflow. *)
+                            = depth of the Go recursion; OutOfFuel models Go's fatal stack overflow.
+   PROVED: panic-freedom and termination below the nesting budget, for every registry / descriptor / input
+   (C02_partial_depth, C02_total, C02_depth); the memory part of the statement is REFUTED three ways (nesting depth,
+   nesting amplification, dimension count) and PROVED in the form the three findings leave possible
+   (C02_partial_memory): with nesting budget d the allocation is at most
+       (d + 1) * ((3854 + 7 * len) * len + 5770137)   bytes for an input of len bytes
+   i.e. linear in the input per nesting level, plus the quadratic cost of reshaping multi-dimensional arrays
+   (known finding variant-dimension-count) and 5.8 MB of slack per level (65535 element slots of a Variant array are
+   allocated before the first element is read: known finding nesting-amplification).  The cost model's constants are
+   validated against the Go allocator from below by the check (TotalAlloc of every hostile decode). *)
 From Coq Require Import NArith ZArith List Bool Lia.
 From Coq.Strings Require Import Byte.
-From Opcua Require Import Model.CodecTypes Model.Codec Model.CodecEq Proofs.CodecTotal Gen.UaTypes.
+From Opcua Require Import Model.CodecTypes Model.Codec Model.CodecEq Proofs.CodecTotal Proofs.CodecCost Proofs.CodecCostCustoms
+  Proofs.CodecCostMain Gen.UaTypes.
 Import ListNotations.
 Open Scope Z_scope.
 
@@ -64,6 +74,42 @@ Proof.
   rewrite E in Hf. exact Hf.
 Qed.
 
+(* ---- memory: the positive part ---- *)
+(* static measures of the generated descriptors (re-checked on every run): bytes allocated per byte consumed (element
+   slots of slices), pointer targets, slack; bounds over the descriptors that can be entered one level down *)
+Definition cost_RM : N := 1648.
+Definition cost_CM : N := 984.
+Definition cost_SM : N := 944.
+Theorem C02_cost_registry :
+  forallb (fun r => entry_ok cost_RM cost_CM cost_SM (TPtr (snd r))) gen_reg = true /\
+  entry_ok cost_RM cost_CM cost_SM xml_body_ty = true /\
+  forallb (fun t => tyok t && (srate t <=? cost_RM)%N && (scst t + sslk t <=? cost_CM + cost_SM)%N) all_tys = true /\
+  (scst (TPtr qualified_name_ty) <=? cost_CM)%N = true.
+Proof. vm_compute. repeat split; reflexivity. Qed.
+
+(* PARTIAL (memory): any descriptor the code decodes into, any input, any nesting budget d (deeper inputs: OutOfFuel) *)
+Theorem C02_partial_memory : forall d t bs, In t all_tys ->
+  let len := N.of_nat (length bs) in
+  (res_alloc (decode gen_reg d t bs) <= (N.of_nat d + 1) * ((3854 + 7 * len) * len + 5770137))%N.
+Proof.
+  intros d t bs Hin len. destruct C02_cost_registry as [Hreg [Hxml [Hall Hq]]].
+  rewrite forallb_forall in Hall. specialize (Hall t Hin).
+  apply andb_true_iff in Hall. destruct Hall as [Hall H3]. apply andb_true_iff in Hall. destruct Hall as [H1 H2].
+  apply N.leb_le in H2, H3, Hq.
+  pose proof (alloc_bound len gen_reg cost_RM cost_CM cost_SM Hreg (variant_entry _ _ _ Hq) Hxml d t bs H1 (N.le_refl _)) as H.
+  unfold DA, DE, KV, cost_RM, cost_CM, cost_SM in *. fold len in H. unfold ln in H. fold len in H.
+  set (D := N.of_nat d) in *. set (S := srate t) in *.
+  assert (Hm : (S * len <= 1648 * len)%N) by (apply N.mul_le_mono_r; exact H2).
+  nia.
+Qed.
+
+(* e.g. with the limit of 100 levels that the TODOs in variant.go ask for, a 64 KiB message costs at most 3.1 TB: the
+   bound is dominated by the dimension-count finding; without dimensions (7 * len dropped) it is 26 GB, of which 5.8 MB * 101 are the per-level slack *)
+Example C02_memory_numbers :
+  ((100 + 1) * ((3854 + 7 * 65536) * 65536 + 5770137) = 3062634812253 /\
+   (100 + 1) * (3854 * 65536 + 5770137) = 26092933981)%N.
+Proof. vm_compute. split; reflexivity. Qed.
+
 (* REFUTED (1): nesting is not limited by the code (variant.go: "todo(fs): limit recursion depth to 100"), only by the
    input length: go_depth_budget bytes 0x18 (a Variant holding a Variant holding ...) exhaust the budget.
    Known finding C02 nesting-depth; replayed on the implementation by the check (the child dies of stack overflow). *)
@@ -114,6 +160,8 @@ Print Assumptions C02_registry.
 Print Assumptions C02_partial_depth.
 Print Assumptions C02_total.
 Print Assumptions C02_depth.
+Print Assumptions C02_cost_registry.
+Print Assumptions C02_partial_memory.
 Print Assumptions C02_refuted_depth.
 Print Assumptions C02_refuted_amplification.
 Print Assumptions C02_refuted_dimensions.
